@@ -168,10 +168,14 @@ def sig_case(draw):
             big = draw(st.integers(0, 9)) == 0
             n = draw(st.integers(15, 20)) if big else draw(st.integers(1, 5))
             k = draw(st.integers(0, min(n, 3)))
-            ks = [keybytes(keys[i % len(keys)], 'comp' if i >= len(keys) else None) for i in range(n)]
-            if n > len(keys):
-                ks = [keybytes(keys[i % len(keys)], 'comp') if i < len(keys) else bytes([2]) + bytes([i]) * 32 for i in range(n)]
-            chosen = sorted(draw(st.lists(st.integers(0, min(n, len(keys)) - 1), min_size=k, max_size=k, unique=True)))
+            # up to six keys with known secrets sit at random positions among the n keys (also the very last ones); the rest are well-formed dummies
+            nreal = min(n, len(keys))
+            realpos = sorted(draw(st.lists(st.integers(0, n - 1), min_size=nreal, max_size=nreal, unique=True))) if n > nreal else list(range(n))
+            ks = [bytes([2]) + bytes([i + 1]) * 32 for i in range(n)]
+            for j, pos_ in enumerate(realpos):
+                ks[pos_] = keybytes(keys[j], 'comp' if n > len(keys) else None)
+            k = min(k, nreal)
+            chosen = sorted(draw(st.lists(st.sampled_from(realpos), min_size=k, max_size=k, unique=True)))
             sigs = [new_sig(ks[i]) for i in chosen]
             if draw(st.integers(0, 5)) == 0 and len(sigs) >= 2:
                 sigs.reverse()
